@@ -144,6 +144,7 @@ class Program:
         self.modules: Dict[str, ModuleInfo] = {}
         self.inlined: Dict[str, List[str]] = {}
         self.pruned: List[str] = []
+        self.expansion_errors: List[str] = []
         self.parse_failures: List[str] = []
         src = os.path.join(self.root, self.SRC_SUBDIR)
         if not os.path.isdir(src):
@@ -187,8 +188,10 @@ class Program:
 
                     try:
                         n_inl, sites = inline.expand_module(tree, name)
-                    except RecursionError as e:  # pragma: no cover
-                        raise AnalysisError(f"helper expansion failed in {name}: {e}")
+                    except Exception as e:  # a defect of the expander must never take the analysis down: analyse the module as written
+                        tree = ast.parse(source, filename=path)
+                        n_inl, sites = 0, []
+                        self.expansion_errors.append(f"{name}: {type(e).__name__}: {e}")
                     if n_inl:
                         self.inlined[name] = sites
                 into[name] = ModuleInfo(
